@@ -458,7 +458,7 @@ Theorem separate_indirect_blocks_pre_cleanup f l f' :
 Proof.
   intros Hd Hc Hbi Hset Hof H.
   destruct (sri_steps_exist f l f' H) as [s1 [dbid [di [ii [s2 [ibid [s3 [rs [have [s4 [rs' St]]]]]]]]]]].
-  destruct (sri_pre_sort_explicit _ _ _ _ _ _ _ _ _ _ _ _ _ _ Hd Hc Hbi Hset St) as [Hg [_ [_ [Hdb2 Hib2]]]].
+  destruct (sri_pre_sort_explicit _ _ _ _ _ _ _ _ _ _ _ _ _ _ Hd Hc Hbi Hset St) as [Hg [_ [_ [Hdb2 [Hib2 _]]]]].
   destruct St as [E1 [E2 [E3 [E4 Ef]]]].
   destruct (sri_scan_facts (fsyn f)) as [Sd [Si Hdist]].
   assert (Hne : dbid <> ibid).
